@@ -45,7 +45,7 @@ def search(ctx, n_theta=12, n_pts=400):
                 bad(C > np.minimum(u, v) + tol, 'frechet-upper')
                 bad(C < np.maximum(u + v - 1, 0) - tol, 'frechet-lower')
                 # boundary
-                e = rng.uniform(0, 1, 50)
+                e = np.concatenate([rng.uniform(0, 1, 50), [1.0, 1e-300, 1.0 - 1e-16]] + ([[0.0]] if fam != 'gumbel' else []))
                 one = np.ones_like(e)
                 zero = np.zeros_like(e)
                 b1 = np.asarray(c.cumulative_distribution(np.column_stack([e, one])), dtype=float)
@@ -56,6 +56,8 @@ def search(ctx, n_theta=12, n_pts=400):
                     ctx.violation(f'search:boundary-one:{fam}', f'{fam} theta={th}: C(u,1)=u or C(1,u)=u fails at u={e[i]!r}',
                                   {'family': fam, 'theta': th, 'u': float(e[i]), 'C_u_1': float(b1[i]), 'C_1_u': float(b2[i]),
                                    'repro': repro_cdf(fam, th, [(e[i], 1.0), (1.0, e[i])])})
+                e = np.concatenate([e, [0.0]])      # corner (0,0) included for every family
+                zero = np.zeros_like(e)
                 with np.errstate(all='ignore'):
                     z1 = np.asarray(c.cumulative_distribution(np.column_stack([e, zero])), dtype=float)
                     z2 = np.asarray(c.cumulative_distribution(np.column_stack([zero, e])), dtype=float)
